@@ -23,6 +23,16 @@ Theorem c17_seq_strict : forall evs c l, exec evs = (c, l, true) -> seq_strict l
 Proof. exact exec_seq_strict. Qed.
 Print Assumptions c17_seq_strict.
 
+(* within one key activation the write sequence number only ever moves by sealing one record (which binds the old value)
+   and then by +1; nothing but a key activation sets it back *)
+Theorem c17_seq_moves_only_by_seal : forall evs c l e, exec evs = (c, l, true) -> guard c e = true ->
+  forall s, w_key (getw (fst (step c e)) s) = w_key (getw c s) ->
+    (w_seq (getw (fst (step c e)) s) = w_seq (getw c s) /\ forall x, snd (step c e) <> Some (s, x)) \/
+    (w_seq (getw (fst (step c e)) s) = incr_seq (w_seq (getw c s)) /\
+     exists x, snd (step c e) = Some (s, x) /\ s_seq x = w_seq (getw c s) /\ s_key x = w_key (getw c s)).
+Proof. exact exec_seq_moves. Qed.
+Print Assumptions c17_seq_moves_only_by_seal.
+
 (* for a fixed IV each of the three constructions maps sequence numbers in [0, 2^64) to nonces injectively *)
 Theorem c17_nonce_injective : forall a iv x y, is_aead a = true -> x < two64 -> y < two64 ->
   nonce_of a iv (be_bytes 8 x) = nonce_of a iv (be_bytes 8 y) -> x = y.
